@@ -172,7 +172,7 @@ func runResolve(c *Ctx) {
 	}
 	// fixed regression corpus first (minimised past disagreements / witnesses)
 	corpus := [][2]string{{"a.b", "aXb"}, {"a.b", "a.b"}, {"a(", "a("}, {"a+", "aa"}, {"x*y", "x\ny"}, {"*", ""}, {"**", "ab"},
-		{"a*b*", "axxbybz"}, {"s*-*", "sa-b-c"}, {"[a]", "a"}, {"a|b", "a"}, {"a\\", "a\\"}, {"^a$", "a"}, {"a{2}", "aa"}, {"é*", "éé"}}
+		{"a*b*", "axxbybz"}, {"x-*", "x-a\nb"}, {"*", "\n"}, {"a*b*c", "a\nb\n\nbc"}, {"s*-*", "sa-b-c"}, {"[a]", "a"}, {"a|b", "a"}, {"a\\", "a\\"}, {"^a$", "a"}, {"a{2}", "aa"}, {"é*", "éé"}}
 	for _, pn := range corpus {
 		d := resCase{Kind: "match", Pat: pn[0], Name: pn[1]}
 		cl, il := evalResolve(d)
@@ -183,7 +183,21 @@ func runResolve(c *Ctx) {
 	for i := 0; i < nMatch; i++ {
 		pat := c.resWord(6, true)
 		var name string
-		switch c.Rng.Intn(4) {
+		switch c.Rng.Intn(5) {
+		case 4:
+			// wildcard values with a newline inside: only '*' is special, '(.*)' must take them
+			var sb strings.Builder
+			for _, ch := range pat {
+				if ch == '*' {
+					w := []rune(c.resWord(3, false))
+					at := c.Rng.Intn(len(w) + 1)
+					sb.WriteString(string(w[:at]) + "\n" + string(w[at:]))
+				} else {
+					sb.WriteRune(ch)
+				}
+			}
+			name = sb.String()
+			c.Hit("match:newline-in-value")
 		case 0:
 			name = c.resWord(8, false)
 			c.Hit("match:random-name")
@@ -199,6 +213,9 @@ func runResolve(c *Ctx) {
 		}
 		d := resCase{Kind: "match", Pat: pat, Name: name}
 		cl, im := evalResolve(d)
+		if strings.Contains(name, "\n") && strings.HasPrefix(im, "some") {
+			c.Hit("match:matched-name-with-newline")
+		}
 		if strings.HasPrefix(im, "some ") {
 			c.Hit("match:with-groups")
 			c.Distinct("m|" + pat + "|" + name)
